@@ -25,7 +25,8 @@ static std::string check_set(const TFheGateBootstrappingParameterSet *p, const D
     int64_t Bg = (int64_t)1 << d.Bgbit;
     if (gp->Bg != Bg || gp->halfBg != Bg / 2 || gp->maskMod != (uint32_t)(Bg - 1) || gp->kpl != (d.k + 1) * d.l) return fmt("derived gadget fields Bg=%d halfBg=%d maskMod=%u kpl=%d inconsistent", gp->Bg, gp->halfBg, gp->maskMod, gp->kpl);
     uint32_t off = 0; for (int i = 0; i < d.l; i++) { uint32_t h = 1u << (32 - (i + 1) * d.Bgbit); if ((uint32_t)gp->h[i] != h) return fmt("h[%d]=0x%08x, expected 0x%08x", i, (uint32_t)gp->h[i], h); off += h * (uint32_t)(Bg / 2); }
-    if (gp->offset != off) return fmt("offset=0x%08x, expected 0x%08x", gp->offset, off);
+    // the decomposition offset is sum h_i*Bg/2 plus a rounding term below the resolution 2^(32-l*Bgbit) of the last digit (0 = truncation, half of it = round to nearest)
+    { uint32_t extra = gp->offset - off; uint64_t res = (uint64_t)1 << (32 - d.l * d.Bgbit); if (extra >= res) return fmt("offset=0x%08x, expected 0x%08x plus a rounding term below 0x%llx", gp->offset, off, (unsigned long long)res); }
     if (tp->extracted_lweparams.n != d.k * d.N) return fmt("extracted dimension %d, expected %d", tp->extracted_lweparams.n, d.k * d.N);
     if (tp->extracted_lweparams.alpha_min != tp->alpha_min || tp->extracted_lweparams.alpha_max != tp->alpha_max) return "extracted parameters do not carry the ring noise levels";
     // structural constraints
